@@ -134,7 +134,7 @@ func vfPrevOK(q *PriorityQueue) bool {
 	return true
 }
 
-var errVfJBInjected = errors.New("injected read failure") //nolint:gochecknoglobals
+var errVfJBInjected error = vfInjErr{"injected read failure"} //nolint:gochecknoglobals
 
 func vfJBEvent(st vfJBStep) vfM {
 	return vfM{
